@@ -13,6 +13,34 @@ for tc in ET.parse(junit).getroot().iter('testcase'):
         passed.add(f"{tc.get('classname')}::{tc.get('name')}")
 os.unlink(junit)
 missing = [t for t in base['stable_pass'] if t not in passed]
+# a test that fails in the full run is retried on its own (the suite has a flaky drawing test whose
+# outcome depends on uninitialised axis limits in matplotlib's 3-D axes)
+still = []
+for t in missing:
+    mod, name = t.split('::', 1)
+    ok = False
+    if mod.startswith('tests.'):
+        path = mod.replace('.', '/') + '.py::' + name
+        for _ in range(4):
+            r = subprocess.run(f"cd /repo && /venv/bin/python -m pytest -q -p no:cacheprovider '{path}'", shell=True,
+                               env=env, stdout=subprocess.DEVNULL, stderr=subprocess.DEVNULL)
+            if r.returncode == 0:
+                ok = True
+                break
+    else:
+        # doctest item: rerun the module's doctests
+        path = mod.replace('.', '/') + '.py'
+        for _ in range(4):
+            r = subprocess.run(f"cd /repo && /venv/bin/python -m pytest -q -p no:cacheprovider --doctest-modules '{path}'", shell=True,
+                               env=env, stdout=subprocess.DEVNULL, stderr=subprocess.DEVNULL)
+            if r.returncode == 0:
+                ok = True
+                break
+    if not ok:
+        still.append(t)
+if missing:
+    print(f"retried {len(missing)} tests individually; still failing: {len(still)}")
+missing = still
 print(f"stable_pass={len(base['stable_pass'])} passed_now={len(passed)} missing={len(missing)}")
 for t in missing[:40]:
     print("  MISSING", t)
